@@ -16,6 +16,7 @@ PROP = "C09"
 BATCH = 256
 BUDGET_S = {"quick": 60, "thorough": 1800}
 MAX_RUNS = {"quick": 4000, "thorough": 10**9}
+MIN_RUNS = {"quick": 768, "thorough": 0}  # the quick tier explores the same runs on a loaded machine (the budget only stops it beyond these)
 MIN_OPS = 1
 
 NAMES = [None, "m", "r", "T", "x_0", "SYM7", "FUN3", "QTY1", "m", "Symbol", "beta", "Abs", "m1", "m"]  # "m1" vs the 11th "m": names made of a stem and digits
